@@ -269,6 +269,18 @@ func ScanRepositoryUsingGraph(
 		return HistorySize{}, err
 	}
 
+	// We have read all of the objects that we asked for. Make sure
+	// that there aren't any more, and that `git cat-file` finished
+	// without an error (`Next()` only waits for the command when it
+	// finds that there are no more objects):
+	_, ok, err := objectIter.Next()
+	if err != nil {
+		return HistorySize{}, err
+	}
+	if ok {
+		return HistorySize{}, errors.New("more objects read than expected")
+	}
+
 	progressMeter.Start("Processing references: %d")
 	for _, root := range roots {
 		progressMeter.Inc()
